@@ -23,14 +23,15 @@ theorem checkBufferCapacity_eq (b : Buffer) (rate duration : Int) :
 
 theorem schedCheckIngest_eq (s : Sys) (o : Obs) (bufOk : Bool)
     (h : s.buf.checkCapacity o.rate o.duration = .ok bufOk) :
+    -- F14: the cluster test receives the reservation counter `s.provIngest`
     s.checkIngestCapacity o =
       .ok ({ s with provIngest := (Gen.schedCheckIngest bufOk
-              (s.cl.checkIngestCapacity o.ingestDemand s.maxIngest) o.ingestDemand s.maxIngest s.provIngest).2 },
+              (s.cl.checkIngestCapacity o.ingestDemand s.maxIngest s.provIngest) o.ingestDemand s.maxIngest s.provIngest).2 },
            (Gen.schedCheckIngest bufOk
-              (s.cl.checkIngestCapacity o.ingestDemand s.maxIngest) o.ingestDemand s.maxIngest s.provIngest).1) := by
+              (s.cl.checkIngestCapacity o.ingestDemand s.maxIngest s.provIngest) o.ingestDemand s.maxIngest s.provIngest).1) := by
   unfold Sys.checkIngestCapacity Gen.schedCheckIngest
   rw [h]
-  cases h1 : s.cl.checkIngestCapacity o.ingestDemand s.maxIngest <;>
+  cases h1 : s.cl.checkIngestCapacity o.ingestDemand s.maxIngest s.provIngest <;>
     by_cases h2 : s.provIngest + (o.ingestDemand : Int) ≤ (s.maxIngest : Int) <;>
       cases bufOk <;> simp [Id.run, idPure, h2]
 
